@@ -29,7 +29,11 @@ def setup():
             print(r.stdout)
             sys.exit(2)
     else:
-        sh("git -C %s checkout -q --detach %s && git -C %s checkout -- ." % (WT, sh("git -C /repo rev-parse HEAD").stdout.strip(), WT))
+        head = sh("git -C /repo rev-parse HEAD").stdout.strip()
+        r = sh("git -C %s checkout -- . && git -C %s clean -fdq && git -C %s checkout -q --detach %s" % (WT, WT, WT, head))
+        if r.returncode or sh("git -C %s rev-parse HEAD" % WT).stdout.strip() != head:
+            print("cannot bring the scratch worktree to /repo's HEAD:", r.stdout[-300:])
+            sys.exit(2)
 
 
 def teardown():
